@@ -179,6 +179,10 @@ class Run:
                 if any(f.kind == "LIT" and f.a for f in v.frags):
                     return True
                 return self.decide(("nonempty", v.key()))
+            if isinstance(v, SObj) and v.kinds <= frozenset({"LIST", "TUPLE", "TAGLIST", "SET"}) and v.known is _NOVAL:
+                coll, kinds = self.ev.as_collection(v, node)
+                if coll is not None:
+                    return not self.ev.cmp_count(coll, frozenset(kinds), "==", 0)
             if isinstance(v, SObj):
                 ks = set(v.kinds)
                 t = {k for k in ks if k in ("TRUE", "TAG", "META", "HTMLDEP", "JSXTAG", "REPR_ONLY", "TAGIFIABLE_ONLY",
@@ -212,6 +216,8 @@ class Run:
                     self.restrict(v, u)
                     return self.decide(("truthy", v.uid))
                 return self.decide(("truthy", v.uid))
+            if isinstance(v, SList) and v.mode == "view":
+                return not self.ev.cmp_count(v.base, v.kinds, "==", 0)
             if isinstance(v, SList):
                 if v.mode == "concrete":
                     if any(not isinstance(i, SSplat) for i in v.items):
